@@ -33,13 +33,13 @@ P = {
  "C13": ("proof", "sound effect analysis (no path from a read-only method to a mutation)",
          "Sound: 'never changes anything in any history' reduces to 'no path of the inlined MIR of a read-only method reaches a store/swap/free/re-index of receiver-reachable memory'. Obligations = read-only methods x feature configurations; all discharged by path enumeration. Assumes the mutating-API table is complete; unmodelled &mut external calls are reported undecided.", "4 C13"),
  "C14": ("other", "cursor/link table + countdown + constructor/projection agreement on MIR",
-         "Each iterator method advances exactly one cursor through the matching link, decrements len once on Some paths, is guarded by len==0; constructors, projections, Clone and per-list accessor delegation agree. Meet-in-the-middle as an execution follows given the list invariant (C03) and is not executed.", "4 C14"),
+         "Each iterator method advances exactly one cursor through the matching link, decrements len once on Some paths, is guarded by len==0; constructors, projections, Clone and per-list accessor delegation agree; list and index agree at every callback site; use operations move the hit node to the head and links are stored only by the link primitives (order clause). Meet-in-the-middle as an execution follows given the list invariant (C03) and is not executed.", "4 C14"),
  "C15": ("other", "path counting of cb calls per departure + argument provenance + who-may-bypass",
          "Exactly one cb per departure path with the departing pair's key/value, none on update/read paths, callback runs only when the cache is consistent, on_evict has no writer but construct, bypassing helpers only on DefaultEvictCallback receivers.", "4 C15"),
  "C16": ("other", "field-wise clone agreement + order-preserving clone provenance",
          "Every Clone impl rebuilds each field from the same field; RawLRU::clone enumerates the recency list least-recent-first and re-inserts with put; no pointer of self flows into the clone. Equivalence under all futures follows from equal state + determinism (C17).", "4 C16"),
  "C17": ("other", "information-flow sources: order-exposing map iteration, address observation, hash values, ambient nondeterminism",
-         "The only ways hasher/address dependent information can reach a result are enumerated and shown absent (allowed only in Drop / TinyLFU / sketch seeding).", "4 C17"),
+         "The only ways hasher/address dependent information can reach a result are enumerated and shown absent (allowed only in Drop / TinyLFU / sketch seeding); hash containers other than the node index are consumed in iteration order only when they are the caller's own argument.", "4 C17"),
  "C18": ("other", "node typestate evaluated at every user-code call site on every path (unwind-state obligation)",
          "At every call into user code (Hash/Eq/BuildHasher/Clone/Drop/callback, incl. through HashMap) on every inlined path, the abstract node state must be unwind-safe: indexed=>linked, freed/boxed=>unreachable, reachable=>initialised, no payload owned twice. Panics inside std's map internals trusted.", "4 C18"),
  "C19": ("proof", "signature/impl-header rules on type-checked item facts + rustc compile-fail witnesses with compiling twins",
@@ -79,7 +79,7 @@ def main():
         "engines": [
             {"name": "factdump", "path": "/verif/factdump", "serves_properties": sorted(P), "kind_free_text": "rustc_private driver: serialises item facts + MIR of the local crate (std and no_std configurations); no rule logic"},
             {"name": "rules", "path": "/verif/rules", "serves_properties": sorted(P), "kind_free_text": "Python stdlib: path-sensitive abstract interpretation of the MIR facts (typestate, provenance, effects), all-writers and signature rules"},
-            {"name": "witness", "path": "/verif/witness", "serves_properties": ["C19"], "kind_free_text": "compile-fail witness programs + compiling twins, verdict read from rustc JSON diagnostics"},
+            {"name": "witness", "path": "/verif/rules/c19.py", "serves_properties": ["C19"], "kind_free_text": "compile-fail witness programs + compiling twins generated from the signature facts by rules/c19.py, compiled against the crate's rmeta; verdict read from rustc JSON diagnostics"},
         ],
         "checks": checks,
         "not_applicable": na,
